@@ -165,9 +165,11 @@ class YowNoiseLayer(YowLayer):
 
     def _flush_incoming_buffer(self):
         self._flush_lock.acquire()
-        while self._incoming_segments_queue.qsize():
-            self.toUpper(self._wa_noiseprotocol.receive())
-        self._flush_lock.release()
+        try:
+            while self._incoming_segments_queue.qsize():
+                self.toUpper(self._wa_noiseprotocol.receive())
+        finally:
+            self._flush_lock.release()
 
     def receive(self, data):
         """
